@@ -7,3 +7,8 @@
 #include "C01_btree_common.hpp"
 
 PBT_PROPERTY(btree_invariants) { verif::bt::run_property(src, false); }
+
+// Alias / destructive-move classes (see C01_btree_main.cpp: btree_alias), without the std model: structure walk, verify(), allocator
+// and element ledgers after every mutating call; configurations C02_btree_cfga_*.cpp (+ C02_btree_cfgat_*.cpp), including tlx::BTree
+// used directly.
+PBT_PROPERTY(btree_alias_invariants) { verif::bt::run_alias_property(src, false); }
